@@ -90,7 +90,10 @@ impl<'a> Quoted<'a> {
         while self.cur.is_some() {
             match self.cur {
                 None => return Err(Error::Unquoting("found early EOF".into())),
-                Some('\'' | '"') if result.ends_with([' ', '\t', '\n']) || result.is_empty() => {
+                Some('\'' | '"')
+                    if quote.is_none()
+                        && (result.ends_with([' ', '\t', '\n']) || result.is_empty()) =>
+                {
                     quote = self.cur;
                 }
                 Some('\\') => {
